@@ -326,6 +326,23 @@ def run_load_case(case: dict, guards: Dict[str, bool]) -> dict:
     except (TypeError, ValueError) as e:   # int(None) / int("abc"): the loader's conversion raised
         if "int()" not in str(e):
             raise
+        # the load is one act for the whole scenario: it raises at the FIRST host (in file order) that lists a service; the
+        # specification line of a failed load is therefore that host's, whatever the view
+        if len(descr) > 1:
+            from harness.lib.core import run_driver
+            cands = []
+            for h in descr:
+                if descr[h]["services"]:
+                    words = ["loadall", show_dict(defaults), str(RESTART_DEFAULT)]
+                    for e2 in descr[h]["services"]:
+                        opts = e2.get("options", {})
+                        words += [show_dict(opts), str(opts.get("fixing_duration", FIX_DEFAULT))]
+                    cands.append(" ".join(words))
+            # the first host for which the SPECIFICATION raises (asked of the driver); none: the first host with services, and the
+            # comparison reports the difference
+            spec = run_driver("drv_c13", cands) if cands else []
+            pick = next((l for l, a in zip(cands, spec) if a == "raised"), cands[0] if cands else lines[0])
+            lines = [pick]
         return {"impl": ["raised"], "lines": lines, "oracle": oracle, "loaded": False}
     node = game.simulation.network.get_node_by_hostname(view)
     unconvertible = False
